@@ -1907,6 +1907,10 @@ func (a *Agent) validateNonSTUNTraffic(local Candidate, remote netip.AddrPort) (
 
 // GetSelectedCandidatePair returns the selected pair or nil if there is none.
 func (a *Agent) GetSelectedCandidatePair() (*CandidatePair, error) {
+	if err := a.loop.Err(); err != nil {
+		return nil, err
+	}
+
 	selectedPair := a.getSelectedPair()
 	if selectedPair == nil {
 		return nil, nil //nolint:nilnil
